@@ -26,6 +26,9 @@ type SessCase struct {
 	Writes  []pgprog.Step      `json:"writes"`  // alice's INSERTs
 	Intrude []Intrusion        `json:"intrude"` // the other identity's statements
 	Who     string             `json:"who"`     // bobby (has keys) | carol (no keys)
+	// OwnerReads: alice reads her rows back (through the same proxy process state: tokenizer, keystore) before
+	// the other identity comes, as an application that shows what it has just stored
+	OwnerReads bool `json:"owner_reads,omitempty"`
 }
 
 // Intrusion is one statement of the other identity.
@@ -102,6 +105,7 @@ func genSessCase(t *rapid.T) SessCase {
 		}
 		c.Intrude = append(c.Intrude, in)
 	}
+	c.OwnerReads = rapid.Bool().Draw(t, "ownerreads")
 	return c
 }
 
@@ -162,6 +166,22 @@ func CheckSessions(c SessCase) (vs hx.Vs, classes []string, nontrivial bool) {
 				}
 			}
 			rows[st.Table] = append(rows[st.Table], full)
+		}
+	}
+	if c.OwnerReads {
+		classes = append(classes, "owner-read-before-other-identity")
+		for ti, tb := range c.Tables {
+			if len(rows[ti]) == 0 {
+				continue
+			}
+			if _, err := sa.Simple("SELECT * FROM " + tb.Name); err != nil {
+				if errors.Is(err, pgsess.ErrTimeout) {
+					sa.Close()
+					R.Note("inconclusive: deadline while alice reads her rows back")
+					return nil, nil, false
+				}
+				break // the positive control at the end judges what alice can read
+			}
 		}
 	}
 	sa.Close()
@@ -304,7 +324,7 @@ func CheckSessions(c SessCase) (vs hx.Vs, classes []string, nontrivial bool) {
 }
 
 func TestCrossSessions(t *testing.T) {
-	R.Rule("TestCrossSessions", "alice writes rows into generated tables (columns enc/search/token/typed/mask, some with explicit client_id alice) through her proxied PostgreSQL session; then bobby (has keys) or carol (none) runs 1-6 statements in a session of their own over the same database: equality/inequality searches on alice's columns with the values alice wrote (literal or bound parameter), full reads, own inserts; oracle: no byte received by the other identity contains a unique plaintext marker of alice's protected values, the handler does not panic, and alice still reads her values afterwards (positive control); non-trivial = a search on a searchable column whose configured owner differs from the connection")
+	R.Rule("TestCrossSessions", "alice writes rows into generated tables (columns enc/search/token/typed/mask, some with explicit client_id alice) through her proxied PostgreSQL session and, in half of the cases, reads them back first; then bobby (has keys) or carol (none) runs 1-6 statements in a session of their own over the same database: equality/inequality searches on alice's columns with the values alice wrote (literal or bound parameter), full reads, own inserts; oracle: no byte received by the other identity contains a unique plaintext marker of alice's protected values, the handler does not panic, and alice still reads her values afterwards (positive control); non-trivial = a search on a searchable column whose configured owner differs from the connection")
 	hx.Checks(60, 1500)
 	rapid.Check(t, func(rt *rapid.T) {
 		c := genSessCase(rt)
